@@ -82,13 +82,25 @@ def gen_case(rng, k=None, force_n=None, force_idk=None):
 	ids = None
 	meta = None
 	if annotated:
-		idk = force_idk or rng.choice(['default', 'str', 'pyint', 'int32', 'uint64', 'npstr'])
+		idk = force_idk or rng.choice(['default', 'str', 'pyint', 'int32', 'uint64', 'npstr', 'perm', 'perm'])
 		if idk == 'str':
 			pool = list(STRS) + [f'id{j}' for j in range(40 + n)]
 			rng.shuffle(pool)
 			ids = pool[:n]
 		elif idk == 'npstr':
 			ids = np.array([f'G{j}é' for j in range(n)])
+		elif idk == 'perm':
+			# integer ids that LOOK like the default numbering (0 .. n-1, each once) but are in another order, or start at 1
+			c_ = rng.random()
+			ids = list(range(n))
+			if c_ < 0.4:
+				rng.shuffle(ids)
+			elif c_ < 0.7:
+				ids.reverse()
+			elif c_ < 0.85:
+				ids = list(range(1, n + 1))
+			else:
+				ids = np.array(rng.sample(range(n), n), dtype=rng.choice(['i8', 'u4', 'u1' if n < 256 else 'u2']))
 		elif idk == 'pyint':
 			ids = rng.sample(range(-10 ** 6, 10 ** 9), n)
 		elif idk == 'int32':
@@ -495,7 +507,7 @@ def run_shard(sh, ctx):
 def finalize(merged, tier, seed, inconclusive):
 	c = merged['counters']
 	need = ['k_width:uint8', 'k_width:uint16', 'k_width:uint32', 'k_width:uint64', 'container:sigarray', 'container:siglist', 'container:sigarray+annotated', 'container:siglist+annotated',
-	        'ids:str', 'ids:pyint', 'ids:uint64', 'ids:default', 'compression:None/None', 'compression:lzf/None', 'compression:gzip/9', 'compression:gzip/0',
+	        'ids:str', 'ids:pyint', 'ids:uint64', 'ids:default', 'ids:perm', 'compression:None/None', 'compression:lzf/None', 'compression:gzip/9', 'compression:gzip/0',
 	        'foreign:empty', 'foreign:fasta', 'foreign:hdf5-datasets-only', 'foreign:magic+zeros', 'foreign:sqlite', 'refused:SignaturesFileError', 'cli_info_files', 'cli_foreign_files', 'same_path_same_shape_rewrites']
 	for n in need:
 		if c.get(n, 0) == 0:
